@@ -466,4 +466,24 @@ example : (request (stepCtx exCfg exEnv ⟨exTok, [], 1101, []⟩)
     (request (stepCtx exCfg exEnv exStep) ⟨[], []⟩ 0 exStep.ops).store 1 []).reads =
     .ok ⟨[], 100, 1, false⟩ := by decide +kernel
 
+
+/-! ### known finding: working values set before `clear()` are used but not persisted
+
+The full-strength reading of the property's parenthesis — "the age / expiration mode / on-server flag a
+request leaves is what the next request reads" — is **false** of the code (and of the faithful model):
+`age(5); clear(); set(k,v)` saves the session with the deadline and cookie age of the stale `timeout_val_ = 5`
+(the member survives `clear()`, the `_t` entry does not), and the next request reads the configured default.
+The same holds for `expiration(h)` and `on_server(b)`.  The specification in `Spec.lean` therefore carries
+age / mode / on-server as the entries `_t` / `_h` / `_s` of the data (that is what is persisted) and mirrors
+the stale working values in `decideSave`; this theorem records the witness, `known_findings.txt` lists it as
+`stale-settings-after-clear`, and the check replays it on the real code on every run. -/
+theorem getters_not_persisted_counterexample :
+    (applyOps exCfg exEnv (emptySess exCfg) [.age 5, .clear, .set [107] [118]]).timeoutVal = 5 ∧
+    (request (stepCtx exCfg exEnv ⟨[], [], 1000, []⟩) ⟨[], []⟩ 0 [.age 5, .clear, .set [107] [118]]).saved = .ok (.written exTok) ∧
+    ((request (stepCtx exCfg exEnv ⟨[], [], 1000, []⟩) ⟨[], []⟩ 0 [.age 5, .clear, .set [107] [118]]).store.recs.map (·.timeout)) = [1005] ∧
+    (request (stepCtx exCfg exEnv ⟨exTok, [], 1004, []⟩)
+      (request (stepCtx exCfg exEnv ⟨[], [], 1000, []⟩) ⟨[], []⟩ 0 [.age 5, .clear, .set [107] [118]]).store 1 []).reads =
+      .ok ⟨[([107], ⟨[118], false⟩)], 100, 1, false⟩ := by
+  decide +kernel
+
 end Cppcms.C06.Props
